@@ -18,7 +18,7 @@ CHECKS = {
          "4 C02"),
  "C04": ("model_checking",
          "exhaustive enumeration of a finite calibrated vector grammar (complete product, no sampling) on the public API",
-         "The complete product of the vector grammar - every shipped and every pinned-baseline black tag, event handler, black/style attribute, URL attribute x scheme x scheme obfuscation, indirect attribute, doctype/entity/import/xml/IE-conditional/back-tick markup, times every breakout prefix of the five contexts, times lower/UPPER/alternating/every single-letter flip and a NUL at every interior name position (about 10 M members in quick, more in thorough) - is run through IsXSS and every member must be reported. The grammar was calibrated once on the repaired pinned tree (all members detected) and is fixed in c04.go.",
+         "The complete product of the vector grammar - every shipped and every pinned-baseline black tag, event handler, black/style attribute, URL attribute x scheme x scheme obfuscation, indirect attribute, doctype/entity/import/xml/IE-conditional/back-tick markup, times every breakout prefix of the five contexts, times lower/UPPER/alternating/every single-letter flip and a NUL at every interior name position (about 12 M members in quick, more in thorough) - is run through IsXSS and every member must be reported. The grammar was calibrated once on the repaired pinned tree (all members detected) and is fixed in c04.go.",
          "The guarantee is exactly the enumerated grammar; list entries come from the current tables and from a pinned baseline copy so removals are misses and additions are covered.",
          "4 C04"),
  "C07": ("model_checking",
@@ -53,7 +53,7 @@ CHECKS = {
          "4 C19"),
  "C03": ("model_checking",
          "exhaustive enumeration of a finite calibrated attack grammar (complete product of productions x separator choices x case assignments) on the public API",
-         "Every member of the committed grammar (7659 (family, payload, prefix, tail) productions over the attack families incl. multi-word prefixes and pseudo-function payloads, context prefixes and tails; each expanded by its calibrated separator set uniformly and one position at a time, lower/UPPER/alternating case and every single-letter flip: about 1.09 M strings) is run through IsSQLi and must be reported. The production list was calibrated once on the repaired pinned tree (a production is in the grammar only if every variant was detected) and is fixed in c03_grammar.json.",
+         "Every member of the committed grammar (8492 (family, payload, prefix, tail) productions over the attack families incl. multi-word prefixes, pseudo-function payloads and parenthesised conditions, context prefixes and tails; each expanded by its calibrated separator set uniformly and one position at a time, lower/UPPER/alternating case and every single-letter flip: about 1.21 M strings) is run through IsSQLi and must be reported. The production list was calibrated once on the repaired pinned tree (a production is in the grammar only if every variant was detected) and is fixed in c03_grammar.json.",
          "The guarantee is exactly the enumerated grammar; the check never re-calibrates at run time.",
          "4 C03"),
  "C06": ("model_checking",
@@ -98,7 +98,7 @@ CHECKS = {
          "4 C20"),
  "C05": ("model_checking",
          "explicit-state closure over call histories (state = digest of all package-level state, fixpoint) + stateless schedule exploration of the auto-instrumented implementation under a cooperative scheduler with iterative preemption bounding and a happens-before race monitor",
-         "E-HIST: from every reachable package state (digest of everything reachable from every package-level variable incl. pooled objects) each of 85 colliding IsSQLi/IsXSS operations (incl. same-fingerprint / different-verdict pairs and 70 KB inputs) is applied to the real code and compared with the fresh-process reference and the reference models; on the unchanged tree the closure is one state, which by induction covers every history. E-SCHED: every interleaving of 2 concurrent calls (136 input pairs; 2x2 calls; 3 threads in thorough) within the preemption bound; long linear histories (700 / 6000 calls) and pumped histories A.N^k.B with k on the 8-bit wrap boundaries; scheduling points inserted by vinstr at every package-level variable access, sync/atomic/pool operation and (per config) function entry / loop iteration, checked for result = sequential reference, data races (vector clocks), deadlock, panics; every failing schedule is replayed and must reproduce. A free-running `go test -race` pass over the same bodies is auxiliary.",
+         "E-HIST: from every reachable package state (digest of everything reachable from every package-level variable incl. pooled objects) each of 156 IsSQLi/IsXSS operations chosen to collide (same-fingerprint / different-verdict pairs, case-only pairs, equal-length pairs sharing their first N bytes, special bytes raw and inside valid UTF-8, NUL-carrying inputs, 70 KB inputs) is applied to the real code and compared with the fresh-process reference and the reference models; on the unchanged tree the closure is one state, which by induction covers every history. E-SCHED: every interleaving of 2 concurrent calls (136 input pairs; every operation against itself; 2x2 calls; 3 threads in thorough) within the preemption bound; returned fingerprints are kept as returned and must still read the same after every later call; long linear histories (700 / 6000 calls) and pumped histories A.N^k.B with k on the 8-bit wrap boundaries; scheduling points inserted by vinstr at every package-level variable access (accesses through a method receiver are resolved at run time to the package-level object they touch), sync/atomic/pool operation and (per config) function entry / loop iteration, checked for result = sequential reference, data races (vector clocks), deadlock, panics; every failing schedule is replayed and must reproduce. A free-running `go test -race` pass over the same bodies is auxiliary.",
          "Sequentially consistent, preemption-bounded (bound 2; statement-level configs bound 1-2 in thorough, caps reported). State reachable only through closures/unsafe is outside the digest. Instrumentation is generated from /repo's working tree at check time.",
          "4 C05"),
  "C09": ("model_checking",
